@@ -1,21 +1,29 @@
 import SSEPyVerif.Driver.BytesD
+import SSEPyVerif.Driver.CryptoD
 
 open SSEPy SSEPy.Driver
 
-def dispatch (line : String) : String :=
-  match (line.trimAscii.toString.splitOn " ") with
-  | "bytes" :: rest => bytesReq rest
-  | "bits" :: rest => bitsReq rest
-  | _ => Proto.bad
+structure DState where
+  tables : Tables := {}
 
-partial def loop (hin : IO.FS.Stream) (hout : IO.FS.Stream) : IO Unit := do
+def dispatch (st : DState) (line : String) : DState × String :=
+  match (line.trimAscii.toString.splitOn " ") with
+  | "bytes" :: rest => (st, bytesReq rest)
+  | "bits" :: rest => (st, bitsReq rest)
+  | "tbl" :: rest => let (t, r) := tblReq st.tables rest; ({ st with tables := t }, r)
+  | "prf" :: rest => (st, prfReq st.tables rest)
+  | "hash" :: rest => (st, hashReq st.tables rest)
+  | _ => (st, Proto.bad)
+
+partial def loop (hin : IO.FS.Stream) (hout : IO.FS.Stream) (st : DState) : IO Unit := do
   let line ← hin.getLine
   if line.isEmpty then return ()
-  hout.putStrLn (dispatch line)
-  loop hin hout
+  let (st', out) := dispatch st line
+  hout.putStrLn out
+  loop hin hout st'
 
 def main : IO Unit := do
   let hin ← IO.getStdin
   let hout ← IO.getStdout
-  loop hin hout
+  loop hin hout {}
   hout.flush
